@@ -536,3 +536,14 @@ Definition to_rational (s : mpf) : res (Z * Z) :=
   let man := if sign =? 0 then man else - man in
   if bc =? -1 then Err VE else
   if 0 <=? exp then Ok (man * Z.shiftl 1 exp, 1) else Ok (man, Z.shiftl 1 (- exp)).
+
+(* ------------------------------------------------------------------ decimal strings (on the parsed pair) *)
+
+(* from_str after str_to_man_exp: value man * 10^exp *)
+Definition from_str_parts (man exp prec : Z) (r : rnd) : res mpf :=
+  if 400 <? Z.abs exp then
+    let s := from_int man (prec + 10) RD in
+    do pw <- mpf_pow_int ften exp (prec + 10) RD;
+    Ok (mpf_mul s pw prec r)
+  else if 0 <=? exp then Ok (from_int (man * 10 ^ exp) prec r)
+  else from_rational man (10 ^ (- exp)) prec r.
